@@ -443,6 +443,83 @@ func ruleRepairTargets(c *Ctx) {
 	}
 }
 
+// ruleCoLocationInputs: the isolation of a candidate store is measured against
+// the peers that count for the same requirement: the rule checker hands the
+// strategy the stores of the rule's own peers (getRuleFitStores), the replica
+// checker the stores of the region. With peers of other rules in the set the
+// isolation filter rejects stores the rule may use, and a rule short of peers
+// is never repaired.
+func ruleCoLocationInputs(c *Ctx) {
+	P := c.P
+	rule := c.Prop + "/co-location-inputs"
+	selNames := map[string]bool{"SelectStoreToAdd": true, "SelectStoreToFix": true, "SelectStoreToImprove": true, "SelectStoreToRemove": true}
+	fitStores := F(P.Method(chk, "RuleChecker", "getRuleFitStores"))
+	regionStores := P.IMethod("server/schedule/opt", "Cluster", "GetRegionStores")
+	isRegionStores := func(v ssa.Value) bool {
+		cl, _ := callOf(v)
+		return cl != nil && (regionStores.Match(cl.Common()) || (cl.Call.StaticCallee() != nil && cl.Call.StaticCallee().Name() == "GetRegionStores") || (cl.Call.IsInvoke() && cl.Call.Method.Name() == "GetRegionStores"))
+	}
+	nRule, nRepl := 0, 0
+	for _, fn := range P.Funcs {
+		if P.isScaffold(fn) || fnPkgPath(fn) != modPath+"/"+chk || fn.Signature.Recv() == nil {
+			continue
+		}
+		recv := namedOf(fn.Signature.Recv().Type())
+		if recv == nil || (recv.Obj().Name() != "RuleChecker" && recv.Obj().Name() != "ReplicaChecker") {
+			continue
+		}
+		k := 0
+		for _, b := range fn.Blocks {
+			for _, ins := range b.Instrs {
+				cl, ok := ins.(*ssa.Call)
+				if !ok || cl.Call.StaticCallee() == nil || !selNames[cl.Call.StaticCallee().Name()] {
+					continue
+				}
+				a := callArgs(&cl.Call)
+				if len(a) == 0 {
+					continue
+				}
+				k++
+				construct := fmt.Sprintf("co-location set #%d given to %s in %s", k, cl.Call.StaticCallee().Name(), fnName(fn))
+				if recv.Obj().Name() == "RuleChecker" {
+					nRule++
+					c.Check(derivesFrom(a[0], resultOfCall(fitStores), 4) && !derivesFrom(a[0], isRegionStores, 4), rule, construct,
+						"the stores of the rule's own peers (getRuleFitStores), so isolation is measured within the rule", P.instrPos(cl), "")
+				} else {
+					nRepl++
+					c.Check(derivesFrom(a[0], isRegionStores, 4), rule, construct, "the stores of the region's peers", P.instrPos(cl), "")
+				}
+			}
+		}
+	}
+	if nRule < 4 || nRepl < 4 {
+		c.Undec(rule, "strategy calls in the rule checker / replica checker", "at least 4 each", "", fmt.Sprintf("%d / %d", nRule, nRepl))
+	}
+}
+
+// ruleCheckerSelection: which requirement a region is checked against follows
+// the placement-rules switch: the rule checker when it is on, the
+// learner/replica checkers (max-replicas, location-labels) when it is off. A
+// region satisfying its rules must not be "repaired" towards max-replicas.
+func ruleCheckerSelection(c *Ctx) {
+	P := c.P
+	rule := c.Prop + "/checker-selection"
+	cr := P.Method("server/schedule", "CheckerController", "CheckRegion")
+	enabled := F(P.Method("server/config", "PersistOptions", "IsPlacementRulesEnabled"))
+	for _, spec := range []struct {
+		typ  string
+		want bool
+	}{{"RuleChecker", true}, {"ReplicaChecker", false}, {"LearnerChecker", false}} {
+		chkFn := F(P.Method(chk, spec.typ, "Check"))
+		word := "on"
+		if !spec.want {
+			word = "off"
+		}
+		c.need(rule, cr, "call "+spec.typ+".Check", instrCallMatcher(chkFn), []Ev{guardCall("placement rules are "+word, spec.want, callMatcher(enabled))}, all,
+			"the "+spec.typ+" runs only while placement rules are "+word)
+	}
+}
+
 func ruleShrinkOnlyWhenExtra(c *Ctx) {
 	P := c.P
 	rule := c.Prop + "/shrink-only-when-extra"
@@ -653,6 +730,8 @@ func init() {
 		c.Group("C10/low-space", "IsLowSpace exempts only stores without statistics or new stores with enough available space", func() { ruleLowSpaceAtoms(c) })
 		c.Group("C10/candidate-lists-not-rewritten", "the filter package builds subsets in fresh slices: candidate lists are shared with the caller", func() { ruleNoInPlaceCompaction(c) })
 		c.Group("C10/target-from-selector", "every peer added by a checker is placed on the store the selector returned, and only when it returned one", func() { ruleRepairTargets(c) })
+		c.Group("C10/co-location-inputs", "the isolation of a candidate is measured against the rule's own peers (rule checker) or the region's peers (replica checker)", func() { ruleCoLocationInputs(c) })
+		c.Group("C10/checker-selection", "the rule checker runs only with placement rules on, the replica and learner checkers only with them off", func() { ruleCheckerSelection(c) })
 		c.Group("C10/shrink-only-when-extra", "outright removals only with more voters than configured (replica checker) or as orphan with all rules satisfied (rule checker); replacements add before they remove", func() { ruleShrinkOnlyWhenExtra(c) })
 	})
 }
